@@ -375,6 +375,7 @@ def main():
     for v in raw_viol:
         by_sig.setdefault(v['sig'], []).append(v)
     known_hits, new_viol = [], []
+    unreproducible_deaths = []
     for sig, vs in sorted(by_sig.items()):
         k = next((k for k in known if k['status'] == 'known' and k['signature'] == sig), None)
         v = min(vs, key=lambda x: len(x.get('schedule', x.get('case', ''))))
@@ -408,6 +409,14 @@ def main():
             r2 = sh([v['exe'], '--replay', path])
             o1 = re.findall(r'^OUTCOME sig=(\S+)', r1.stdout, re.M)
             o2 = re.findall(r'^OUTCOME sig=(\S+)', r2.stdout, re.M)
+            if sig == 'crash/died' and r1.returncode == 0 and r2.returncode == 0 and o1 == o2 and all(o == 'none' for o in o1):
+                # a worker process vanished inside this case without any report of ours or of a sanitizer, and the case -
+                # deterministic, single-threaded - passes when it is run alone, twice: the death came from outside (memory
+                # pressure, a kill). Not a violation and not a fault of the check; the run is simply not exhaustive.
+                unreproducible_deaths.append(v['case'])
+                exhaustive = False
+                os.remove(path)
+                continue
             if r1.returncode not in (1, 3) or r2.returncode != r1.returncode or o1 != o2 or sig not in o1:
                 harness_errors.append(f'replay of {sig} case {v["case"]} is not reproducible (rc {r1.returncode}/{r2.returncode})')
                 continue
@@ -422,7 +431,8 @@ def main():
         exhaustive=bool(exhaustive and not harness_errors), distinct_outcomes=outcomes_total, pruned_by_cache=agg['pruned'],
         jobs=per_job, racy_access_sites=sorted(racy_sites)[:40], known_findings=known_hits,
         new_violations=[dict(signature=v['signature'], scenario=v['scenario'], occurrences=v['occurrences']) for v in new_viol],
-        explanation=plan.EXPLAIN.get(pid, ''), harness_errors=harness_errors)
+        explanation=plan.EXPLAIN.get(pid, ''), harness_errors=harness_errors,
+        worker_deaths_not_reproducible_alone=unreproducible_deaths[:20])
     ev = dict(property_id=pid, tier=tier, seed=seed, level='model_checking', coverage=coverage,
               assumptions=plan.ASSUMPTIONS.get(pid, plan.DEFAULT_ASSUMPTIONS), wall_s=round(wall, 2), violations=len(new_viol))
     json.dump(ev, open(os.path.join(evid_dir, pid + '.json'), 'w'), indent=1)
